@@ -105,6 +105,13 @@ def plan(ctx, bases):
             add(b, [0, ctx.rng.randrange(2, K + 1)], tag="scattered")
             add(b, upd=[0], tag="update")
             add(b, upd=[ctx.rng.randrange(1, max(U, 2))], tag="update")
+            if bi in (0, 3):
+                # the non-default double_refit=True: the GP holds TWO candidate hyper-parameter vectors when a refit fails
+                for fl in ([1], [2], [1, 2], [3]):
+                    c = copy.deepcopy(b["cfg"])
+                    c.setdefault("opts", {})["double_refit"] = True
+                    c.update(faults=fl, upd_faults=[], upd_double=False, tag="double_refit")
+                    cfgs.append(c)
         else:
             for k in range(K + 1):
                 add(b, [k], tag="single")
